@@ -402,6 +402,7 @@ def train_ddpg(
     if q_target is None:
         q_target = nnx.clone(q)
 
+    steps_trained = global_step
     for global_step in trange(
         global_step, total_timesteps, disable=not progress_bar
     ):
@@ -414,6 +415,7 @@ def train_ddpg(
             )
 
         next_obs, reward, termination, truncated, info = env.step(action)
+        steps_trained = global_step + 1
         steps_per_episode += 1
         accumulated_reward += reward
 
@@ -502,5 +504,5 @@ def train_ddpg(
         q_target,
         q_optimizer,
         replay_buffer,
-        global_step + 1,
+        steps_trained,
     )
